@@ -16,6 +16,7 @@
 package sqlx
 
 import (
+	"context"
 	"database/sql"
 )
 
@@ -23,4 +24,29 @@ import (
 type Tx struct {
 	*sql.Tx
 	*wrap
+
+	// conn is the connection the transaction runs on.  It is held until
+	// the transaction ends, so that a failed commit can be rolled back on
+	// it before it returns to the pool.
+	conn *sql.Conn
+}
+
+// Commit commits the transaction.  When the commit fails, the driver may
+// leave the connection inside the transaction (SQLite answers busy and
+// keeps it open), so the transaction is rolled back on the connection
+// before the connection is released.
+func (tx *Tx) Commit() error {
+	err := tx.Tx.Commit()
+	if err != nil {
+		tx.conn.ExecContext(context.Background(), "rollback")
+	}
+	tx.conn.Close()
+	return err
+}
+
+// Rollback aborts the transaction.
+func (tx *Tx) Rollback() error {
+	err := tx.Tx.Rollback()
+	tx.conn.Close()
+	return err
 }
